@@ -1,5 +1,7 @@
 import SleapVerif.Model.BottomUp
+import SleapVerif.Lemmas.GroupingFixOpt
 import Mathlib.Algebra.Order.Field.Basic
+import Mathlib.Data.List.Nodup
 import Mathlib.Tactic.Linarith
 
 /-!
@@ -9,9 +11,9 @@ import Mathlib.Tactic.Linarith
   `linear_sum_assignment` implies; validated per call by the harness) on a score table that
   separates true pairs from false ones contains every true pair, and the `min_line_scores` filter
   keeps exactly the true pairs.
-* `assign_components` — `Grouping.assignRaw` (the loop of `assign_connections_to_instances`) on a
-  connection list that is processed root-first gives two peaks the same instance id iff they lie in
-  the same component, and assigns exactly the endpoints of the connections.
+* `lsaStable_of_spec` — the local conditions `LsaStable` follow from C08's solver contract
+  `LsaSpecOn` (a minimum-cost saturating matching) on a cost matrix without `none` (NaN) cells:
+  ONE solver contract in the trusted base.
 -/
 namespace SleapVerif.BottomUp
 open SleapVerif.Grouping
@@ -112,276 +114,184 @@ theorem accepted_iff_true {sc : Nat → Nat → R} {T : Nat → Nat → Prop} {n
 
 end matching
 
-/-! ## assignment -/
+/-! ## the solver contract of C08 implies `LsaStable` -/
 
-section assign
+set_option linter.unusedSectionVars false
 
-theorem lookup_nil (p : Peak) : lookup [] p = none := rfl
+section bridge
+variable {K : Type} [Field K] [LinearOrder K] [IsStrictOrderedRing K]
 
-theorem lookup_cons (kv : Peak × Nat) (a : Assign) (p : Peak) :
-    lookup (kv :: a) p = if kv.1 = p then some kv.2 else lookup a p := by
-  unfold lookup
-  by_cases h : kv.1 = p
-  · simp [h]
-  · have hb : (kv.1 == p) = false := by simpa using h
-    simp [hb, h]
+/-- line score of candidate `(i, j)` as the cost matrix holds it (`cost = −score`) -/
+def scoreOf (C : Mat (Option K)) (i j : Nat) : K := -((entry C i j).getD 0)
 
-theorem lookup_append_none (a b : Assign) (p : Peak) (h : lookup a p = none) :
-    lookup (a ++ b) p = lookup b p := by
-  induction a with
-  | nil => rfl
-  | cons kv a ih =>
-    rw [lookup_cons] at h
-    simp only [List.cons_append, lookup_cons]
-    split_ifs at h ⊢ with hk
-    exact ih h
+/-- no NaN score among the candidates of this edge type -/
+def ValidIn (C : Mat (Option K)) : Prop := ∀ i < nRows C, ∀ j < nCols C, (entry C i j).isSome
 
-theorem lookup_append_some (a b : Assign) (p : Peak) (i : Nat) (h : lookup a p = some i) :
-    lookup (a ++ b) p = some i := by
-  induction a with
-  | nil => simp [lookup_nil] at h
-  | cons kv a ih =>
-    rw [lookup_cons] at h
-    simp only [List.cons_append, lookup_cons]
-    split_ifs at h ⊢ with hk
-    · exact h
-    · exact ih h
+theorem cost_cons (C : Mat (Option K)) (m : Nat × Nat) (M : List (Nat × Nat)) :
+    cost C (m :: M) = (entry C m.1 m.2).getD 0 + cost C M := by
+  unfold cost
+  rw [sumL_eq_sum, sumL_eq_sum]
+  simp
 
-theorem lookup_map_set (a : Assign) (p q : Peak) (i : Nat) :
-    lookup (a.map (fun kv => if kv.1 == p then (kv.1, i) else kv)) q
-      = if q = p then (lookup a q).map (fun _ => i) else lookup a q := by
-  induction a with
-  | nil => simp [lookup_nil]
-  | cons kv a ih =>
-    simp only [List.map_cons, lookup_cons]
-    by_cases hkp : kv.1 = p
-    · simp only [hkp, beq_self_eq_true, if_true]
-      by_cases hqp : q = p
-      · simp [hqp]
-      · have : ¬ p = q := fun h => hqp h.symm
-        simp only [this, if_false, hqp]
-        rw [ih]; simp [hqp]
-    · have hb : (kv.1 == p) = false := by simpa using hkp
-      simp only [hb]
-      by_cases hkq : kv.1 = q
-      · have hqp : ¬ q = p := fun h => hkp (hkq.trans h)
-        simp [hkq, hqp]
-      · simp only [Bool.false_eq_true, if_false, hkq]
-        rw [ih]
+theorem cost_perm (C : Mat (Option K)) {M M' : List (Nat × Nat)} (p : M.Perm M') : cost C M = cost C M' := by
+  unfold cost
+  rw [sumL_eq_sum, sumL_eq_sum]
+  exact (p.map _).sum_eq
 
-/-- `a[p] = i` then reading `q` -/
-theorem lookup_insert (a : Assign) (p q : Peak) (i : Nat) :
-    lookup (Grouping.insert a p i) q = if q = p then some i else lookup a q := by
-  unfold Grouping.insert
-  by_cases h : (lookup a p).isSome
-  · simp only [h, if_true]
-    rw [lookup_map_set]
-    by_cases hqp : q = p
-    · subst hqp
-      obtain ⟨v, hv⟩ := Option.isSome_iff_exists.mp h
-      simp [hv]
-    · simp [hqp]
-  · simp only [h, Bool.false_eq_true, if_false]
-    have hn : lookup a p = none := by simpa using h
-    by_cases hqp : q = p
-    · subst hqp
-      rw [lookup_append_none _ _ _ hn]
-      simp [lookup_cons]
-    · simp only [hqp, if_false]
-      cases hq : lookup a q with
-      | none =>
-        rw [lookup_append_none _ _ _ hq]
-        have : ¬ p = q := fun h => hqp h.symm
-        simp [lookup_cons, lookup_nil, this]
-      | some v => exact lookup_append_some _ _ _ _ hq
+theorem isMatching_perm {C : Mat (Option K)} {M M' : List (Nat × Nat)} (p : M.Perm M')
+    (h : IsMatching C M) : IsMatching C M' :=
+  ⟨⟨(p.map _).nodup_iff.mp h.oneToOne.1, (p.map _).nodup_iff.mp h.oneToOne.2⟩,
+   fun m hm => h.inRange m (p.mem_iff.mpr hm),
+   by rw [← p.length_eq]; exact h.saturating,
+   fun m hm => h.finite m (p.mem_iff.mpr hm)⟩
 
-theorem foldl_max_ge (l : Assign) (m : Nat) : m ≤ l.foldl (fun m kv => max m (kv.2 + 1)) m := by
-  induction l generalizing m with
-  | nil => simp
-  | cons kv l ih =>
-    simp only [List.foldl_cons]
-    exact le_trans (Nat.le_max_left _ _) (ih _)
+/-- the diagonal is a saturating matching of a matrix without `none` cells -/
+theorem diag_isMatching_of_valid {C : Mat (Option K)} (hv : ValidIn C) :
+    IsMatching C ((List.range (min (nRows C) (nCols C))).map fun i => (i, i)) := by
+  refine ⟨⟨?_, ?_⟩, ?_, ?_, ?_⟩
+  · simp [List.map_map, Function.comp_def, List.nodup_range]
+  · simp [List.map_map, Function.comp_def, List.nodup_range]
+  · intro m hm
+    obtain ⟨i, hi, rfl⟩ := List.mem_map.mp hm
+    have hi := List.mem_range.mp hi
+    simp only
+    omega
+  · simp
+  · intro m hm
+    obtain ⟨i, hi, rfl⟩ := List.mem_map.mp hm
+    have hi := List.mem_range.mp hi
+    exact hv i (by omega) i (by omega)
 
-theorem lt_foldl_max (l : Assign) (m : Nat) (p : Peak) (i : Nat) (h : lookup l p = some i) :
-    i < l.foldl (fun m kv => max m (kv.2 + 1)) m := by
-  induction l generalizing m with
-  | nil => simp [lookup_nil] at h
-  | cons kv l ih =>
-    rw [lookup_cons] at h
-    simp only [List.foldl_cons]
-    split_ifs at h with hk
-    · have : i = kv.2 := by simpa using h.symm
-      subst this
-      exact lt_of_lt_of_le (by omega : kv.2 < max m (kv.2 + 1)) (foldl_max_ge _ _)
-    · exact ih _ h
+theorem length_le_pred_of_avoid {l : List Nat} {n i : Nat} (hn : l.Nodup) (hi : i < n)
+    (h : ∀ x ∈ l, x < n ∧ x ≠ i) : l.length + 1 ≤ n := by
+  have hsub : l ⊆ (List.range n).erase i := by
+    intro x hx
+    obtain ⟨h1, h2⟩ := h x hx
+    exact (List.mem_erase_of_ne h2).mpr (List.mem_range.mpr h1)
+  have := (List.subperm_of_subset hn hsub).length_le
+  rw [List.length_erase_of_mem (List.mem_range.mpr hi), List.length_range] at this
+  omega
 
-/-- every id in use is below `nextId` -/
-theorem lt_nextId (a : Assign) (p : Peak) (i : Nat) (h : lookup a p = some i) : i < nextId a :=
-  lt_foldl_max a 0 p i h
+/-- **One solver contract.**  A minimum-cost saturating matching (`IsMatching` + optimality, what
+`LsaSpecOn.sound` gives for scipy's answer) on a cost matrix without NaN cells is exchange-stable
+for the scores `−cost`. -/
+theorem lsaStable_of_optimal {C : Mat (Option K)} {M : List (Nat × Nat)} (hv : ValidIn C)
+    (IM : IsMatching C M) (hopt : ∀ M', IsMatching C M' → cost C M ≤ cost C M') :
+    LsaStable (scoreOf C) (nRows C) (nCols C) M := by
+  have rowsInj : ∀ p ∈ M, ∀ q ∈ M, p.1 = q.1 → p = q := List.inj_on_of_nodup_map IM.oneToOne.1
+  have colsInj : ∀ p ∈ M, ∀ q ∈ M, p.2 = q.2 → p = q := List.inj_on_of_nodup_map IM.oneToOne.2
+  have getD_eq : ∀ i j, (entry C i j).getD 0 = -scoreOf C i j := by intro i j; simp [scoreOf]
+  refine ⟨rowsInj, colsInj, ?_, ?_, ?_, ?_⟩
+  · -- maximal
+    intro i hi j hj
+    by_contra hcon
+    have hrow : ∀ x ∈ M.map (·.1), x < nRows C ∧ x ≠ i := by
+      intro x hx
+      obtain ⟨m, hm, rfl⟩ := List.mem_map.mp hx
+      exact ⟨(IM.inRange m hm).1, fun h => hcon (Or.inl ⟨m, hm, h⟩)⟩
+    have hcol : ∀ x ∈ M.map (·.2), x < nCols C ∧ x ≠ j := by
+      intro x hx
+      obtain ⟨m, hm, rfl⟩ := List.mem_map.mp hx
+      exact ⟨(IM.inRange m hm).2, fun h => hcon (Or.inr ⟨m, hm, h⟩)⟩
+    have h1 := length_le_pred_of_avoid IM.oneToOne.1 hi hrow
+    have h2 := length_le_pred_of_avoid IM.oneToOne.2 hj hcol
+    have h3 := IM.saturating
+    simp only [List.length_map] at h1 h2
+    omega
+  · -- 2-exchange
+    intro p hp q hq
+    by_cases hpq : p = q
+    · subst hpq; exact le_refl _
+    · have hq' : q ∈ M.erase p := (List.mem_erase_of_ne (Ne.symm hpq)).mpr hq
+      have perm : M.Perm (p :: q :: (M.erase p).erase q) :=
+        (List.perm_cons_erase hp).trans ((List.perm_cons_erase hq').cons p)
+      have IM2 := isMatching_perm perm IM
+      have IM' : IsMatching C ((p.1, q.2) :: (q.1, p.2) :: (M.erase p).erase q) := by
+        refine ⟨⟨?_, ?_⟩, ?_, ?_, ?_⟩
+        · simpa using IM2.oneToOne.1
+        · have := IM2.oneToOne.2
+          simp only [List.map_cons] at this ⊢
+          exact (List.Perm.swap _ _ _).nodup_iff.mp this
+        · intro m hm
+          simp only [List.mem_cons] at hm
+          rcases hm with rfl | rfl | hm
+          · exact ⟨(IM.inRange p hp).1, (IM.inRange q hq).2⟩
+          · exact ⟨(IM.inRange q hq).1, (IM.inRange p hp).2⟩
+          · exact IM2.inRange m (by simp [hm])
+        · have := IM2.saturating
+          simpa using this
+        · intro m hm
+          simp only [List.mem_cons] at hm
+          rcases hm with rfl | rfl | hm
+          · exact hv _ (IM.inRange p hp).1 _ (IM.inRange q hq).2
+          · exact hv _ (IM.inRange q hq).1 _ (IM.inRange p hp).2
+          · exact IM2.finite m (by simp [hm])
+      have h := hopt _ IM'
+      rw [cost_perm C perm, cost_cons, cost_cons, cost_cons, cost_cons] at h
+      simp only [getD_eq] at h
+      linarith
+  · -- move to a free column
+    intro p hp j hj hfree
+    have perm : M.Perm (p :: M.erase p) := List.perm_cons_erase hp
+    have IM2 := isMatching_perm perm IM
+    have IM' : IsMatching C ((p.1, j) :: M.erase p) := by
+      refine ⟨⟨?_, ?_⟩, ?_, ?_, ?_⟩
+      · simpa using IM2.oneToOne.1
+      · have := IM2.oneToOne.2
+        simp only [List.map_cons, List.nodup_cons] at this ⊢
+        refine ⟨?_, this.2⟩
+        intro hm
+        obtain ⟨m, hm, hmj⟩ := List.mem_map.mp hm
+        exact hfree m (List.mem_of_mem_erase hm) hmj
+      · intro m hm
+        simp only [List.mem_cons] at hm
+        rcases hm with rfl | hm
+        · exact ⟨(IM.inRange p hp).1, hj⟩
+        · exact IM2.inRange m (by simp [hm])
+      · simpa using IM2.saturating
+      · intro m hm
+        simp only [List.mem_cons] at hm
+        rcases hm with rfl | hm
+        · exact hv _ (IM.inRange p hp).1 _ hj
+        · exact IM2.finite m (by simp [hm])
+    have h := hopt _ IM'
+    rw [cost_perm C perm, cost_cons, cost_cons] at h
+    simp only [getD_eq] at h
+    linarith
+  · -- move to a free row
+    intro p hp i hi hfree
+    have perm : M.Perm (p :: M.erase p) := List.perm_cons_erase hp
+    have IM2 := isMatching_perm perm IM
+    have IM' : IsMatching C ((i, p.2) :: M.erase p) := by
+      refine ⟨⟨?_, ?_⟩, ?_, ?_, ?_⟩
+      · have := IM2.oneToOne.1
+        simp only [List.map_cons, List.nodup_cons] at this ⊢
+        refine ⟨?_, this.2⟩
+        intro hm
+        obtain ⟨m, hm, hmi⟩ := List.mem_map.mp hm
+        exact hfree m (List.mem_of_mem_erase hm) hmi
+      · simpa using IM2.oneToOne.2
+      · intro m hm
+        simp only [List.mem_cons] at hm
+        rcases hm with rfl | hm
+        · exact ⟨hi, (IM.inRange p hp).2⟩
+        · exact IM2.inRange m (by simp [hm])
+      · simpa using IM2.saturating
+      · intro m hm
+        simp only [List.mem_cons] at hm
+        rcases hm with rfl | hm
+        · exact hv _ hi _ (IM.inRange p hp).2
+        · exact IM2.finite m (by simp [hm])
+    have h := hopt _ IM'
+    rw [cost_perm C perm, cost_cons, cost_cons] at h
+    simp only [getD_eq] at h
+    linarith
 
-/-- the endpoints of a connection list -/
-def endpoints (cs : List (Peak × Peak)) : List Peak := cs.flatMap fun c => [c.1, c.2]
+theorem lsaStable_of_spec {lsa : Lsa K} {C : Mat (Option K)} {M : List (Nat × Nat)} (hv : ValidIn C)
+    (S : LsaSpecOn lsa C) (h : lsa C = some M) :
+    LsaStable (scoreOf C) (nRows C) (nCols C) M ∧ ∀ p ∈ M, p.1 < nRows C ∧ p.2 < nCols C :=
+  ⟨lsaStable_of_optimal hv (S.sound M h).1 (S.sound M h).2, (S.sound M h).1.inRange⟩
 
-theorem mem_endpoints {cs : List (Peak × Peak)} {p : Peak} :
-    p ∈ endpoints cs ↔ ∃ c ∈ cs, p = c.1 ∨ p = c.2 := by
-  simp [endpoints]
-
-/-- The connection list is processed **root-first** with respect to a component labelling `comp`:
-both ends of a connection lie in one component; the destination peak has not been seen before;
-and when the component has been started already, the source peak has been seen. -/
-def RootFirst {C : Type} (comp : Peak → C) : List (Peak × Peak) → Prop
-  | [] => True
-  | cs => ∀ pre c post, cs = pre ++ c :: post →
-      comp c.1 = comp c.2 ∧ c.2 ∉ endpoints pre ∧
-      ((∃ d ∈ pre, comp d.1 = comp c.1) → c.1 ∈ endpoints pre)
-
-theorem rootFirst_split {C : Type} {comp : Peak → C} {cs pre post : List (Peak × Peak)} {c : Peak × Peak}
-    (h : RootFirst comp cs) (e : cs = pre ++ c :: post) :
-    comp c.1 = comp c.2 ∧ c.2 ∉ endpoints pre ∧
-      ((∃ d ∈ pre, comp d.1 = comp c.1) → c.1 ∈ endpoints pre) := by
-  cases cs with
-  | nil => simp at e
-  | cons x xs => exact h pre c post e
-
-/-- invariant of the loop after the prefix `pre` -/
-structure AInv {C : Type} (comp : Peak → C) (pre : List (Peak × Peak)) (a : Assign) : Prop where
-  keys : ∀ p, (lookup a p).isSome ↔ p ∈ endpoints pre
-  ids : ∀ p q i j, lookup a p = some i → lookup a q = some j → (i = j ↔ comp p = comp q)
-
-theorem assignRaw_snoc (pre : List (Peak × Peak)) (c : Peak × Peak) :
-    assignRaw (pre ++ [c]) = astep (assignRaw pre) c.1 c.2 := by
-  simp [assignRaw, List.foldl_append]
-
-theorem ainv_step {C : Type} {comp : Peak → C} {pre : List (Peak × Peak)} {a : Assign}
-    (I : AInv comp pre a) (c : Peak × Peak)
-    (hsame : ∀ d ∈ pre, comp d.1 = comp d.2)
-    (hc : comp c.1 = comp c.2) (hfresh : c.2 ∉ endpoints pre)
-    (hroot : (∃ d ∈ pre, comp d.1 = comp c.1) → c.1 ∈ endpoints pre) :
-    AInv comp (pre ++ [c]) (astep a c.1 c.2) := by
-  have hd : lookup a c.2 = none := by
-    have := (I.keys c.2).not.mpr hfresh
-    simpa using this
-  have hend : ∀ p, p ∈ endpoints (pre ++ [c]) ↔ p ∈ endpoints pre ∨ p = c.1 ∨ p = c.2 := by
-    intro p; simp [endpoints]
-  -- every old key lies in the component of some earlier connection's source
-  have hold : ∀ q j, lookup a q = some j → ∃ d ∈ pre, comp d.1 = comp q := by
-    intro q j hq
-    have : q ∈ endpoints pre := (I.keys q).mp (by simp [hq])
-    obtain ⟨d, hdm, h⟩ := mem_endpoints.mp this
-    rcases h with h | h
-    · exact ⟨d, hdm, by rw [h]⟩
-    · exact ⟨d, hdm, by rw [h, hsame d hdm]⟩
-  cases hs : lookup a c.1 with
-  | none =>
-    -- case 1: a new instance
-    have hstep : astep a c.1 c.2 = Grouping.insert (Grouping.insert a c.1 (nextId a)) c.2 (nextId a) := by
-      unfold astep; simp only [hs, hd]
-    rw [hstep]
-    have hnew : ∀ q j, lookup a q = some j → comp q ≠ comp c.1 := by
-      intro q j hq hcq
-      obtain ⟨d, hdm, hdq⟩ := hold q j hq
-      have := hroot ⟨d, hdm, hdq.trans hcq⟩
-      have := (I.keys c.1).mpr this
-      simp [hs] at this
-    have hlk : ∀ q, lookup (Grouping.insert (Grouping.insert a c.1 (nextId a)) c.2 (nextId a)) q
-        = if q = c.1 ∨ q = c.2 then some (nextId a) else lookup a q := by
-      intro q
-      rw [lookup_insert, lookup_insert]
-      by_cases h2 : q = c.2
-      · simp [h2]
-      · by_cases h1 : q = c.1
-        · simp [h1]
-        · simp [h1, h2]
-    have hcn : ∀ q, (q = c.1 ∨ q = c.2) → comp q = comp c.1 := by
-      rintro q (h | h)
-      · rw [h]
-      · rw [h, hc]
-    constructor
-    · intro p
-      rw [hend, hlk]
-      by_cases hn : p = c.1 ∨ p = c.2
-      · simp [hn]
-      · simp only [hn, if_false, or_false]
-        exact I.keys p
-    · intro p q i j hp hq
-      rw [hlk] at hp hq
-      by_cases pn : p = c.1 ∨ p = c.2 <;> by_cases qn : q = c.1 ∨ q = c.2
-      · simp only [pn, qn, if_true, Option.some.injEq] at hp hq
-        rw [hcn p pn, hcn q qn, ← hp, ← hq]; simp
-      · simp only [pn, qn, if_true, if_false, Option.some.injEq] at hp hq
-        have hlt := lt_nextId a q j hq
-        have hcq := hnew q j hq
-        rw [hcn p pn]
-        constructor
-        · intro h; omega
-        · intro h; exact absurd h.symm hcq
-      · simp only [pn, qn, if_true, if_false, Option.some.injEq] at hp hq
-        have hlt := lt_nextId a p i hp
-        have hcp := hnew p i hp
-        rw [hcn q qn]
-        constructor
-        · intro h; omega
-        · intro h; exact absurd h hcp
-      · simp only [pn, qn, if_false] at hp hq
-        exact I.ids p q i j hp hq
-  | some si =>
-    -- case 2: the destination joins the instance of the source
-    have hstep : astep a c.1 c.2 = Grouping.insert a c.2 si := by
-      unfold astep; simp only [hs, hd]
-    rw [hstep]
-    constructor
-    · intro p
-      rw [hend, lookup_insert]
-      by_cases h2 : p = c.2
-      · simp [h2]
-      · simp only [h2, if_false, or_false]
-        constructor
-        · intro h; exact Or.inl ((I.keys p).mp h)
-        · rintro (h | h)
-          · exact (I.keys p).mpr h
-          · rw [h, hs]; rfl
-    · intro p q i j hp hq
-      rw [lookup_insert] at hp hq
-      by_cases p2 : p = c.2 <;> by_cases q2 : q = c.2
-      · simp only [p2, q2, if_true, Option.some.injEq] at hp hq
-        rw [p2, q2, ← hp, ← hq]; simp
-      · simp only [p2, q2, if_true, if_false, Option.some.injEq] at hp hq
-        rw [p2, ← hc, ← hp]
-        exact I.ids c.1 q si j hs hq
-      · simp only [p2, q2, if_true, if_false, Option.some.injEq] at hp hq
-        rw [q2, ← hc, ← hq]
-        exact I.ids p c.1 i si hp hs
-      · simp only [p2, q2, if_false] at hp hq
-        exact I.ids p q i j hp hq
-
-theorem ainv_foldl {C : Type} (comp : Peak → C) (post : List (Peak × Peak)) :
-    ∀ (pre : List (Peak × Peak)) (a : Assign), AInv comp pre a → RootFirst comp (pre ++ post) →
-      AInv comp (pre ++ post) (post.foldl (fun a c => astep a c.1 c.2) a) := by
-  induction post with
-  | nil => intro pre a I _; simpa using I
-  | cons c post ih =>
-    intro pre a I h
-    have hsame : ∀ d ∈ pre, comp d.1 = comp d.2 := by
-      intro d hd
-      obtain ⟨l1, l2, e⟩ := List.append_of_mem hd
-      exact (rootFirst_split h (pre := l1) (c := d) (post := l2 ++ c :: post) (by rw [e]; simp)).1
-    obtain ⟨h1, h2, h4⟩ := rootFirst_split h (pre := pre) (c := c) (post := post) rfl
-    have I' := ainv_step I c hsame h1 h2 h4
-    have := ih (pre ++ [c]) (astep a c.1 c.2) I' (by simpa using h)
-    simpa using this
-
-theorem ainv_assignRaw {C : Type} (comp : Peak → C) (cs : List (Peak × Peak)) (h : RootFirst comp cs) :
-    AInv comp cs (assignRaw cs) := by
-  have I0 : AInv comp [] ([] : Assign) :=
-    ⟨by intro p; simp [lookup_nil, endpoints], by intro p q i j hp; simp [lookup_nil] at hp⟩
-  have := ainv_foldl comp cs [] [] I0 (by simpa using h)
-  simpa [assignRaw] using this
-
-/-- `min_instance_peaks = 0` filters nothing -/
-theorem assignConnections_zero (cs : List (Peak × Peak)) (n : Nat) :
-    assignConnections cs (.int 0) n = assignRaw cs := by
-  simp [assignConnections, minPeaksThreshold, filterSmall]
-
-end assign
+end bridge
 
 end SleapVerif.BottomUp
